@@ -374,6 +374,40 @@ func (r *run) showGrid() {
 	}
 }
 
+// ---------------------------------------------------------------- transform-cache key collision
+
+// Two principals: the owner of `secret` primes the transform cache (key = header + ":" + sql) through an
+// endpoint that uses getTransformedSQL; a caller whose ONE database is `default` then sends, WITHOUT a
+// header, the text "<header>:<sql>": the permission side checks default.cpu, the cache returns the
+// owner's rewrite.
+func (r *run) cacheCollision() {
+	c := r.c
+	for i, q := range []string{"SELECT canary FROM cpu", "SELECT canary FROM cpu WHERE host <> 'zz'", "SELECT b.canary FROM cpu a JOIN cpu b ON true"} {
+		for _, prime := range []string{"/api/v1/query/arrow", "/api/v1/query/estimate", "/api/v1/query"} {
+			qq := fmt.Sprintf("%s LIMIT %d", q, 7+i) // distinct text per attempt
+			if prime == "/api/v1/query/estimate" {
+				qq = fmt.Sprintf("%s LIMIT %d", q, 17+i)
+			} else if prime == "/api/v1/query" {
+				qq = fmt.Sprintf("%s LIMIT %d", q, 27+i)
+			}
+			r.e.rec.grant = secretDB
+			po := r.e.query(prime, qq, secretDB)
+			r.e.rec.grant = defaultDB
+			atk := secretDB + ":" + qq
+			o := r.e.query("/api/v1/query", atk, "")
+			r.e.rec.grant = ""
+			c.Tag(fmt.Sprintf("cache-collision:prime=%d attack=%d canary=%v", po.status, o.status, o.canary))
+			s := stmt{family: "transform-cache-key-collision", hdr: "", sql: atk}
+			if o.canary && strings.Contains(string(o.body), canaryTag+secretDB) {
+				c.Fail("canary-read:transform-cache-key-collision",
+					fmt.Sprintf("a caller granted only `default` (checked: %s) receives rows of `secret`: the transform cache entry primed by the owner's request (header secret, %s) is returned for the header-less text", fmtChecked(o.checked), prime),
+					"1) owner of secret: POST "+prime+" header=\"secret\" sql="+strconv.Quote(qq)+"  2) within the cache TTL, caller granted only `default`: "+r.scrub(replayLine("/api/v1/query", s)))
+			}
+			c.Case("cache-collision\x00"+prime+"\x00"+qq, true)
+		}
+	}
+}
+
 // ---------------------------------------------------------------- replay / corpus
 
 var replayRe = regexp.MustCompile(`^endpoint=(\S+) family=(\S+) header=("(?:[^"\\]|\\.)*") sql=("(?:[^"\\]|\\.)*")`)
@@ -408,7 +442,7 @@ func main() {
 	c := vh.Start()
 	e := newEnv()
 	defer e.close()
-	g := &gen{r: vh.NewRand(c.Seed), root: e.root}
+	g := &gen{r: vh.NewRand(c.Seed), root: e.root, thorough: c.Thorough()}
 	if d, ok := c.Facts["denylist"].([]any); ok {
 		for _, x := range d {
 			if s, isStr := x.(string); isStr {
@@ -458,6 +492,7 @@ func main() {
 	}
 	r.measurementGrid()
 	r.showGrid()
+	r.cacheCollision()
 	// 3. random compositions + malformed stream
 	n := c.N
 	if n == 0 {
